@@ -164,7 +164,7 @@ pub fn property() -> Property {
     Property {
         id: "C13",
         level: "exploration",
-        rule: "histories of 1..3 skip_gc replicas (every op kind, deliveries in any order, merges, syncs); at generated points a replica takes a snapshot (and its dump is recorded); immediately, every third step and at the end every recorded snapshot is encoded (v1 and v2) from the then-current document, applied to an empty document and compared with the recorded dump; Snapshot encode/decode round trip; a GC-enabled document must refuse.  Non-trivial = the history continued after the snapshot (later edits extend, split, format or delete blocks that existed at snapshot time); distinct = distinct generated case".into(),
+        rule: "histories of 1..3 skip_gc replicas (every op kind, deliveries in any order, merges, syncs); at generated points a replica takes a snapshot (and its dump is recorded); immediately, every third step and at the end every recorded snapshot is encoded (v1 and v2) from the then-current document, applied to an empty passive document and to an empty document with the library's defaults (GC and automatic format clean-up on), each compared with the recorded dump; Snapshot encode/decode round trip; a GC-enabled document must refuse.  Non-trivial = the history continued after the snapshot (later edits extend, split, format or delete blocks that existed at snapshot time); distinct = distinct generated case".into(),
         assumptions: vec![
             "snapshots are taken in gap-free states (a state vector cannot describe content integrated beyond a gap; skipped points are counted)".into(),
             "the restored document is compared through the canonical dump; sub-documents are excluded from these histories".into(),
